@@ -281,6 +281,15 @@ func VerifH_C13_FileServer() {
 		if v, ok := symHeader("If-Match", []string{"*", "\"e\""}); ok {
 			hdr["If-Match"] = []string{v}
 		}
+		if method == "DELETE" {
+			// RFC 4918 9.6.1: any Depth but infinity is invalid for DELETE
+			if d, ok := symHeader("Depth", []string{"0", "1", "infinity"}); ok {
+				hdr["Depth"] = []string{d}
+				if d != "infinity" {
+					malformed = true
+				}
+			}
+		}
 	}
 	r := verifXMLRequest(method, "/x/"+vrt.Str("name"), hdr, xmlBody, xmlBroken, rawBody, emptyBody)
 	rec := newVerifRecorder()
